@@ -39,6 +39,10 @@ def liftInputEp (X U : List (List α)) : List (List α) :=
 def retractStateEp (Th : List (List α)) : List (List α) :=
   (Stage.inv env p.s p.w (Th.map fun t => ⟨t, zeros (p.wOut env).2⟩)).map (·.x)
 
+/-- `retract_input` on one episode of lifted inputs: pad zero lifted states, inverse, keep the input block -/
+def retractInputEp (Up : List (List α)) : List (List α) :=
+  (Stage.inv env p.s p.w (Up.map fun u => ⟨zeros (p.wOut env).1, u⟩)).map (·.u)
+
 /-- one-step prediction for every sample of one episode (`predict`): transform, multiply by the Koopman
 matrix, pad zero lifted inputs, inverse, keep the state -/
 def predictEp (X : Ep α) : List (List α) :=
